@@ -10,6 +10,9 @@ NOTE_COMMON = ("Trusted: go/types and go/ssa (x/tools v0.50.0) construction for 
                "code; value-level clauses named there as 'not decided' are not covered.")
 
 claimed = {
+ "C07": dict(category="other",
+   text="Decides, on every path of the current source, the structural necessary conditions of all-or-nothing block processing: transaction pairing (commit / rollback / deferred rollback with a flag cleared only after a nil Commit) in every ProcessBlock and Reorg of the three stores; every SQL write in the transaction scope and its callee cone goes through the transaction; every in-memory frontier write is dominated by the registration of a rollback callback that invalidates the frontier; the computed set of post-construction field writes of the long-lived store objects is accounted for; ErrInconsistentState leaves ProcessBlock only with a halt; block row first, nothing after Commit. Level 'other': these are necessary conditions that hold for all faults and crash points because they do not depend on them; the value-level claim (state after retry equals the fault-free run) is not decided.",
+   ref="4 C07", technique="static analysis: SSA transaction-discipline rules (must-pass-through, handle provenance over the callee cone, who-may-write)"),
  "C14": dict(category="proof",
    text="Static proof, over all paths of the current source, of the fail-stop structure: every exported data query of both syncers (enumerated from the method sets, so later additions are included) is dominated by the !isHalted() edge and returns ErrInconsistentState on the halted edge; ProcessBlock tests the flag before opening a transaction and the driver stops on that error; halting sites latch the flag; the only clearing store is in UnhaltIfAffectedRows under rowsAffected>0, reached only from Reorg after a nil Commit with the DELETE's RowsAffected. Proof level is right because the property is a universally quantified statement about entry points and flag writes, which is exactly what dominance and who-may-write analyses decide.",
    ref="4 C14", technique="static analysis: SSA dominance / path-sensitive reachability, who-may-write enumeration, value provenance",
